@@ -504,6 +504,18 @@ def specC06 (s : St) (status : String) : List String :=
    let we := (s.evs.filter (fun e => e.kind == "wend")).size
    if status == "ok" && wb != we then [s!"SPECFAIL C06 {wb - we} write call(s) did not return"] else [])
 
+/-- has thread `tid`, which wrote a slot at position `wpos`, entered `publish` of that write call by position `upto`
+(inclusive)? i.e. is there an event of `tid` in `(wpos, upto]` that is neither a slot access nor a slot write — the first thing
+`Producer::write` does after its last slot write is `sequencer.publish(..)` -/
+def publishBegun (evs : Array Ev) (tid : String) (wpos upto : Nat) : Bool := Id.run do
+  let mut i := wpos + 1
+  let mut found := false
+  while i ≤ upto && i < evs.size && !found do
+    let e := evs[i]!
+    if e.tid == tid && e.kind != "write" && e.kind != "slot" then found := true
+    i := i + 1
+  return found
+
 def specC14 (s : St) (status : String) : List String := Id.run do
   let evs := s.evs
   let ws := writesOf evs
@@ -541,6 +553,10 @@ def specC14 (s : St) (status : String) : List String := Id.run do
       if (ws.any (fun w => w.1 == sq)) || sq ≤ (sorted.getLastD (0, 0, 0, "")).2.1 then
         if !(ws.any (fun w => w.1 == sq && w.2.2.1 < pos)) then
           out := out ++ [s!"SPECFAIL C14 cursor moved to {v} past unpublished sequence {sq}"]
+        else if !(ws.any (fun w => w.1 == sq && w.2.2.1 < pos && publishBegun evs w.2.2.2 w.2.2.1 pos)) then
+          -- written, but its claimant has not entered `publish` yet (no operation of that thread after the last slot write of
+          -- the call): the cursor is not a *published* prefix
+          out := out ++ [s!"SPECFAIL C14 cursor moved to {v} past sequence {sq} whose claimant has not begun to publish it"]
   -- once all claimants have published, cursor = highest claimed
   if status == "ok" && !claims.isEmpty && open_.isEmpty then
     let hi := claims.foldl (fun m c => Nat.max m c.2.1) 0
